@@ -6,6 +6,7 @@ import (
 	"fmt"
 	"io"
 	"strings"
+	"time"
 
 	remoteexecution "github.com/bazelbuild/remote-apis/build/bazel/remote/execution/v2"
 	"github.com/buildbarn/bb-storage/pkg/blobstore"
@@ -138,6 +139,7 @@ const (
 	opGetComposite
 	opFind
 	opRotate // filler upload of a fresh object to force allocation
+	opSleep  // let simulated time pass
 )
 
 const (
@@ -167,6 +169,7 @@ type storeOp struct {
 	SetInst []string
 
 	InvokeSeq int // set when the operation is invoked
+	Dur       time.Duration
 }
 
 func consName(c int) string {
@@ -186,6 +189,8 @@ func (o *storeOp) String() string {
 		return fmt.Sprintf("GetFromComposite(o%d@%q child=%d cons=%s)", o.Obj, o.Inst, o.Child, consName(o.Cons))
 	case opFind:
 		return fmt.Sprintf("FindMissing(%v@%v)", o.Set, o.SetInst)
+	case opSleep:
+		return fmt.Sprintf("Sleep(%v)", o.Dur)
 	}
 	return "?"
 }
@@ -613,6 +618,9 @@ func (w *storeWorld) exec(op *storeOp) {
 		w.doGet(op)
 	case opFind:
 		w.doFind(op)
+	case opSleep:
+		_, ch := w.e.clock.NewTimer(op.Dur)
+		rt.Recv(ch)
 	}
 }
 
@@ -627,6 +635,8 @@ type workloadOpts struct {
 	Composite   bool
 	MaxHolds    int
 	PutWeight, GetWeight, FindWeight, CompWeight int
+	SleepWeight int
+	SleepMax    time.Duration
 }
 
 func drawObjects(t *sim.Tape, cfg *storeCfg, n int, composite bool) []*object {
@@ -727,7 +737,10 @@ func drawOps(t *sim.Tape, cfg *storeCfg, objs []*object, canon map[int]int, wo *
 				cw = 0
 			}
 			op := &storeOp{}
-			switch t.Pick(wo.PutWeight, wo.GetWeight, wo.FindWeight, cw) {
+			switch t.Pick(wo.PutWeight, wo.GetWeight, wo.FindWeight, cw, wo.SleepWeight) {
+			case 4:
+				op.Kind = opSleep
+				op.Dur = time.Duration(1+t.Choose(20)) * wo.SleepMax / 20
 			case 0:
 				op.Kind = opPut
 				op.Obj = pick()
